@@ -306,6 +306,10 @@ class WaitInitiatorCEA(State):
     def run(self) -> None:
         self.set_wait_initiator_cea_state(set_name=True)
 
+        if self.is_set_release_signal_from_peer():
+            self.event_initiator_peer_disc()
+            return
+
         if self.has_recv_queue_message():
             self.msg = self.get_message()
 
@@ -336,7 +340,6 @@ class WaitInitiatorCEA(State):
 
 
     def event_initiator_peer_disc(self) -> None:
-        """ It needs to be coded """
         wait_initiator_cea_logger.debug("Event has been triggered.")
 
         self.set_closed_state()
@@ -499,6 +502,10 @@ class Closing(State):
     def run(self) -> None:
         self.set_closing_state(set_name=True)
 
+        if self.is_set_release_signal_from_peer():
+            self.event_peer_disc()
+            return
+
         if self.has_recv_queue_message():
             self.msg = self.get_message()
 
@@ -512,6 +519,12 @@ class Closing(State):
         open_logger.debug("Event has been triggered.")
 
         self.set_closed_state(force=True)
+
+
+    def event_peer_disc(self) -> None:
+        closing_logger.debug("Event has been triggered.")
+
+        self.set_closed_state()
 
 
 class PeerStateMachine():
@@ -539,6 +552,12 @@ class PeerStateMachine():
 
     def get_next_state(self, next_state: str) -> Any:
         if next_state == CLOSED and self.current_state.name == CLOSED:
+            if (self.association.is_connected() and 
+                    self.association.transport._stop_threads):
+                #: The peer has gone before any CER: release the transport.
+                self.is_running = False
+                self.association.close()
+
             return self.states[CLOSED]
 
         elif next_state == CLOSED and self.current_state.name != CLOSED:
